@@ -377,7 +377,8 @@ class MultiplyOperator(Operator):
             if isinstance(self.domain, RealNumbers):
                 return InnerProductOperator(self.multiplicand)
             elif isinstance(self.domain, ComplexNumbers):
-                return InnerProductOperator(self.multiplicand.conjugate())
+                # <z * v, y> = z * <v, y> = <z, <y, v>>_C, no conjugation
+                return InnerProductOperator(self.multiplicand)
             else:
                 raise NotImplementedError(
                     'adjoint not implemented for domain{!r}'
